@@ -86,7 +86,7 @@ Section Commands.
     let hnf := route hs (root_hist hs) nf in
     let relnf := strip_prefix (lh_root hnf) nf in
     match find_first_any (lh_gens hnf) relnf with
-    | None => mkDR (dr_sess st) (dr_found st) true                                  (* AttributeError on None *)
+    | None => st                                  (* nothing to compare (a folder recorded without hashes): skipped, as repaired *)
     | Some nfe =>
         match sess_find (dr_sess st) np with
         | None => mkDR (dr_sess st) (dr_found st) true
@@ -200,10 +200,9 @@ Section Commands.
   Definition ev_files (evs : list ev) : list (path * bytes) :=
     flat_map (fun e => match e with EvFile p c => [(p, c)] | EvDir _ _ => [] end) evs.
 
-  Definition verify_like (is_diff : bool) (t : node) (only : option path) (ipats ifile : list text) : node * obs :=
-    match load t with
-    | inr e => (t, obs_exit (load_err_code e))
-    | inl hs =>
+  (* verify_entire_folder / diff_entire_folder_against_full_history_subcommand once the history is there: `hs` is what
+     MHLHistory.load_from_path -- or load_from_packing_list_path -- returned *)
+  Definition verify_core (hs : list lhist) (is_diff : bool) (t : node) (only : option path) (ipats ifile : list text) : node * obs :=
         match lh_gens (root_hist hs) with
         | [] => (t, obs_exit exit_no_history)
         | _ =>
@@ -228,7 +227,11 @@ Section Commands.
                             end
                 end in
             (t, mkObs (Exit code) [] miss (sorted_paths (vs_bad vs)) (sorted_paths (vs_new vs)) [] [] [])
-        end
+        end.
+  Definition verify_like (is_diff : bool) (t : node) (only : option path) (ipats ifile : list text) : node * obs :=
+    match load t with
+    | inr e => (t, obs_exit (load_err_code e))
+    | inl hs => verify_core hs is_diff t only ipats ifile
     end.
 
   (* ---- verify -dh ------------------------------------------------------------------------------------- *)
@@ -369,5 +372,16 @@ Section Commands.
             (* the collection's hash list only comes into being with its first entry *)
             (t, mkObs (Exit 0) (match recs with [] => [] | _ => [([], doc)] end) [] [] [] [] [] [])
         end
+    end.
+
+  (* ---- verify -pl: the packing list (a flattened manifest) is loaded as a history of one generation numbered 1, at
+     the root, without child histories and without a chain (MHLHistory.load_from_packing_list_path).  `pl` is the
+     generation as it reads back; None = the file does not exist (click refuses the option value). *)
+  Definition pl_history (pl : gen) : lhist :=
+    mkLhist [] None [mkGen 1 (g_records pl) (g_root pl) (g_patterns pl) (g_refs pl) (g_process pl)] [] true.
+  Definition verify_pl (t : node) (pl : option gen) (ipats ifile : list text) : node * obs :=
+    match pl with
+    | None => (t, obs_exit 2)
+    | Some g => verify_core [pl_history g] false t None ipats ifile
     end.
 End Commands.
